@@ -53,6 +53,23 @@ CLAIMED = {
              "codecs are Python's; render = concat(generate) etc. are established by correspondence, not by proof.",
         design_ref="§5 C10",
     ),
+    "C06": dict(
+        category="proof",
+        technique="Lean 4 proof that the model of Macro.__call__ equals a declarative binding specification for all "
+                  "signatures and calls + exhaustive differential calls on the real Macro object + end-to-end macro "
+                  "calls (template, star-args, call block, Template.module sync/async)",
+        text="Theorem macro_call_eq_spec (Props/C06.lean): for every signature with distinct parameter names, every "
+             "positional list and every keyword list with distinct names, the transcription of Macro.__call__ (cursor, "
+             "kwargs.pop loop, caller/kwargs/varargs special-casing) returns exactly the documented binding (positional "
+             "in order; surplus to varargs or TypeError; keywords fill remaining parameters; leftovers to kwargs or "
+             "TypeError; unfilled = default marker); corollaries for the two TypeError clauses. Tie: exhaustive calls on "
+             "the real Macro object (<=3/<=4 parameters from 5 names incl. caller, 8 flag combinations, 0-5 positional, "
+             "keyword sets of <=2/<=4 from 6 names) and generated macros with defaults referring to earlier parameters "
+             "and outer variables, called from templates, call blocks, star-args and Python.",
+        note="Trusted: Lean kernel; hand model Model/Macro.lean (tied by correspondence); default evaluation and "
+             "special-name detection are compiled code (macro_body) covered end-to-end only; values are ints.",
+        design_ref="§5 C06",
+    ),
 }
 
 NOT_YET = "not yet decided by the Lean model in this revision (machinery for it is not built; see DESIGN.md §8 build order)"
